@@ -959,15 +959,15 @@ def gen_cases(chk: Check):
     rng = chk.rng
     quick = chk.tier == "quick"
     cases = exhaustive_mask_cases(rng)
-    for _ in range(52 if quick else 400):                     # the actor directly
+    for _ in range(100 if quick else 400):                     # the actor directly
         spec = random_spec(rng)
         masked = spec["kind"] != "box" and rng.random() < 0.6
         cases.append({"suite": "actor", "spec": spec, "rows": gen_rows(rng, spec, masked), **common_fields(rng, spec)})
-    for _ in range(30 if quick else 240):                     # PPO.get_action / evaluate_actions
+    for _ in range(60 if quick else 240):                     # PPO.get_action / evaluate_actions
         spec = random_spec(rng)
         masked = spec["kind"] != "box" and rng.random() < 0.4
         cases.append({"suite": "ppo", "spec": spec, "rows": gen_rows(rng, spec, masked), **common_fields(rng, spec)})
-    for _ in range(12 if quick else 80):                     # IPPO.get_action
+    for _ in range(24 if quick else 80):                     # IPPO.get_action
         masks = rng.random() < 0.5
         kinds = ("discrete", "multidiscrete", "multibinary") if masks else ("discrete", "multidiscrete", "multibinary", "box")
         if rng.random() < 0.6:
@@ -984,12 +984,12 @@ def gen_cases(chk: Check):
             c["masks"] = {a: [random_mask(rng, specs[k]) for _ in rows] for k, a in enumerate(ids)}
         cases.append(c)
     one_dim = [{"kind": "box", "d": 1}, {"kind": "multibinary", "n": 1}, {"kind": "multidiscrete", "nvec": [3]}]
-    for i in range(10 if quick else 50):                      # what learn() re-evaluates
+    for i in range(16 if quick else 50):                      # what learn() re-evaluates
         spec = one_dim[i % 3] if i < 3 or rng.random() < 0.25 else random_spec(rng)
         c = {"suite": "learn", "algo": "PPO", "spec": spec, "rows": [], **common_fields(rng, spec)}
         c["scale"] = min(c["scale"], 4.0)
         cases.append(c)
-    for i in range(4 if quick else 24):
+    for i in range(8 if quick else 24):
         s0 = one_dim[i % 3] if i < 3 else random_spec(rng)
         s1 = random_spec(rng)
         cases.append({"suite": "learn", "algo": "IPPO", "agent_ids": ["agent_0", "agent_1", "other_0"], "specs": [s0, s0, s1],
